@@ -58,24 +58,18 @@ def cookwareTail (start stop modPos nameOffset : Nat) (mtoks : List Tok) (body :
     | none => panicWith "no recipe token in modifiers with recipe"
   return some (.cookware ⟨⟨pm.flags, name, alias, quantity, note⟩, ⟨start, stop⟩⟩)
 
-def timerTail (start stop nameOffset : Nat) (mtoks : List Tok) (body : Body) : P α (Option (Ev α)) := do
-  if !mtoks.isEmpty then perr "modifiers-not-allowed:timer" [tokensSpan mtoks]
-  if ← hasExt Gen.EXT_COMPONENT_ALIAS then
-    match body.name.findIdx? (fun t => t.kind == .or) with
-    | some i =>
-      let sep := (body.name[i]?).getD dummyTok
-      perr "alias-not-allowed:timer" [⟨sep.start, ((body.name.getLast?).getD sep).stop⟩]
-    | none => pure ()
-  checkNoteTimer
-  let name ← bpText nameOffset body.name
-  let cs := (← get).cs
-  let mut quantity : Option (Loc (PQuantity α)) ← (match body.quantity with
-    | some qt => do
-      let q ← parseQuantity qt
-      if q.quantity.val.unit.isNone then
-        perr "timer-missing-unit" [Span.pos q.quantity.val.value.value.span.stop]
-      pure (some q.quantity)
-    | none => pure none)
+def timerQty (body : Body) : P α (Option (Loc (PQuantity α))) :=
+  match body.quantity with
+  | some qt => do
+    let q ← parseQuantity qt
+    if q.quantity.val.unit.isNone then
+      perr "timer-missing-unit" [Span.pos q.quantity.val.value.value.span.stop]
+    pure (some q.quantity)
+  | none => pure none
+
+def timerFinish (start stop nameOffset : Nat) (body : Body) (name : Text) (cs : CharSpec)
+    (quantity0 : Option (Loc (PQuantity α))) : P α (Option (Ev α)) := do
+  let mut quantity := quantity0
   if quantity.isNone && (← hasExt Gen.EXT_TIMER_REQUIRES_TIME) then
     let span := body.close.getD (Span.pos name.span.stop)
     perr "timer-missing-quantity" [span]
@@ -88,6 +82,20 @@ def timerTail (start stop nameOffset : Nat) (mtoks : List Tok) (body : Body) : P
     perr "timer-neither-name-nor-quantity" [span]
     quantity := some recoverPQuantity
   return some (.timer ⟨⟨nameO, quantity⟩, ⟨start, stop⟩⟩)
+
+def timerTail (start stop nameOffset : Nat) (mtoks : List Tok) (body : Body) : P α (Option (Ev α)) := do
+  if !mtoks.isEmpty then perr "modifiers-not-allowed:timer" [tokensSpan mtoks]
+  if ← hasExt Gen.EXT_COMPONENT_ALIAS then
+    match body.name.findIdx? (fun t => t.kind == .or) with
+    | some i =>
+      let sep := (body.name[i]?).getD dummyTok
+      perr "alias-not-allowed:timer" [⟨sep.start, ((body.name.getLast?).getD sep).stop⟩]
+    | none => pure ()
+  checkNoteTimer
+  let name ← bpText nameOffset body.name
+  let cs := (← get).cs
+  let quantity ← timerQty body
+  timerFinish start stop nameOffset body name cs quantity
 
 /-- how a component was cut: the marker `k` was there, `modifiers()` returned `mtoks` and
     `comp_body()` returned `body`, leaving the parser in state `s3` -/
@@ -114,7 +122,7 @@ theorem timerP_cut {s s1 s2 s3 : BP α} {mtoks : List Tok} {body : Body}
     (hc : Cut .tilde s mtoks body s1 s2 s3) :
     timerP s = timerTail (curOff s) (curOff s3) (curOff s2) mtoks body s3 := by
   obtain ⟨⟨t, h1⟩, h2, h3⟩ := hc
-  unfold timerP timerTail curOff
+  unfold timerP timerTail timerQty timerFinish curOff
   simp only [bind, StateT.bind, currentOffset_run, h1, h2, h3]
   rfl
 
@@ -361,5 +369,216 @@ theorem cookwareTail_unit (start stop modPos nameOffset : Nat) (mtoks : List Tok
     refine ⟨s6, g5.trans g6, ?_⟩
     intro qt unit hqt hu
     exact ((h7 qt unit hqt hu).left g).right (g5.trans g6)
+
+/-! ### timers -/
+
+def timerRest (start stop nameOffset : Nat) (body : Body) : P α (Option (Ev α)) := do
+  checkNoteTimer
+  let name ← bpText nameOffset body.name
+  let cs := (← get).cs
+  let quantity ← timerQty body
+  timerFinish start stop nameOffset body name cs quantity
+
+def timerAliasEv (body : Body) (i : Nat) : Ev α :=
+  .error ⟨.error, .parse, "alias-not-allowed:timer",
+    [⟨((body.name[i]?).getD dummyTok).start, ((body.name.getLast?).getD ((body.name[i]?).getD dummyTok)).stop⟩]⟩
+
+/-- the two checks at the head of the timer tail: modifiers and alias are not allowed -/
+theorem timerTail_head (start stop nameOffset : Nat) (mtoks : List Tok) (body : Body) (s : BP α) :
+    Sat (timerTail (α := α) start stop nameOffset mtoks body) s (fun r s' => ∃ sB, Grow s sB ∧
+      (r, s') = timerRest start stop nameOffset body sB ∧
+      (mtoks.isEmpty = false →
+        Has (.error ⟨.error, .parse, "modifiers-not-allowed:timer", [tokensSpan mtoks]⟩) s sB) ∧
+      (∀ i, s.ext.has Gen.EXT_COMPONENT_ALIAS = true →
+        body.name.findIdx? (fun t => t.kind == .or) = some i → Has (timerAliasEv body i) s sB)) := by
+  unfold timerTail
+  dsimp only
+  split
+  · rename_i hm
+    refine Sat.bind (Sat.perrE ?_)
+    refine Sat.bind (Sat.hasExt ?_)
+    split
+    · rename_i he
+      split
+      · rename_i i hi
+        refine Sat.bind (Sat.perrE ?_)
+        refine ⟨_, (Grow.push _ _).trans (Grow.push _ _), rfl, fun _ => (Has.push _ _).left (Grow.push _ _), ?_⟩
+        intro i' _ hi'
+        rw [hi] at hi'; cases hi'
+        exact (Has.push _ _).right (Grow.push _ _)
+      · rename_i hi
+        refine ⟨_, Grow.push _ _, rfl, fun _ => Has.push _ _, ?_⟩
+        intro i' _ hi'
+        rw [hi] at hi'; cases hi'
+    · rename_i he
+      refine ⟨_, Grow.push _ _, rfl, fun _ => Has.push _ _, ?_⟩
+      intro i' he' _
+      exact absurd he' he
+  · rename_i hm
+    have hm' : ¬ mtoks.isEmpty = false := by
+      intro h0; apply hm; rw [h0]; rfl
+    refine Sat.bind (Sat.hasExt ?_)
+    split
+    · rename_i he
+      split
+      · rename_i i hi
+        refine Sat.bind (Sat.perrE ?_)
+        refine ⟨_, Grow.push _ _, rfl, fun h0 => absurd h0 hm', ?_⟩
+        intro i' _ hi'
+        rw [hi] at hi'; cases hi'
+        exact Has.push _ _
+      · rename_i hi
+        refine ⟨_, Grow.refl _, rfl, fun h0 => absurd h0 hm', ?_⟩
+        intro i' _ hi'
+        rw [hi] at hi'; cases hi'
+    · rename_i he
+      refine ⟨_, Grow.refl _, rfl, fun h0 => absurd h0 hm', ?_⟩
+      intro i' he' _
+      exact absurd he' he
+
+theorem timerQty_spec (body : Body) (s : BP α) :
+    Sat (timerQty (α := α) body) s (fun r s' => Grow s s' ∧ (body.quantity = none → r = none) ∧
+      ∀ qt, body.quantity = some qt → (parseQuantity (α := α) qt s).1.quantity.val.unit = none →
+        Has (.error ⟨.error, .parse, "timer-missing-unit",
+          [Span.pos (parseQuantity (α := α) qt s).1.quantity.val.value.value.span.stop]⟩) s s') := by
+  unfold timerQty
+  split
+  · rename_i qt hqt
+    refine Sat.bind (Sat.mono (Sat.and (Sat.run (parseQuantity qt) s) ((FG.parseQuantity qt).sat s)) ?_)
+    rintro q s1 ⟨hrun, g1⟩
+    have hq : (parseQuantity (α := α) qt s).1 = q := by rw [hrun]
+    dsimp only
+    split
+    · refine Sat.bind (Sat.perrE ?_)
+      refine Sat.pure ⟨g1.trans (Grow.push _ _), ?_, ?_⟩
+      · intro h0; rw [hqt] at h0; cases h0
+      intro qt' hqt' hu
+      rw [hqt] at hqt'; cases hqt'
+      rw [hq]
+      exact (Has.push _ _).right g1
+    · rename_i hu
+      refine Sat.pure ⟨g1, ?_, ?_⟩
+      · intro h0; rw [hqt] at h0; cases h0
+      intro qt' hqt' hu'
+      rw [hqt] at hqt'; cases hqt'
+      rw [hq] at hu'
+      exfalso; apply hu; rw [hu']; rfl
+  · rename_i hq
+    exact Sat.pure ⟨Grow.refl _, fun _ => rfl, fun qt h => by rw [hq] at h; cases h⟩
+
+def timerNeitherSpan (nameOffset : Nat) (body : Body) : Span :=
+  match body.close with
+  | some s => ⟨nameOffset, s.stop⟩
+  | none => Span.pos nameOffset
+
+theorem timerFinish_spec (start stop nameOffset : Nat) (body : Body) (name : Text) (cs : CharSpec) (s : BP α) :
+    Sat (timerFinish (α := α) start stop nameOffset body name cs none) s (fun _ s' => Grow s s' ∧
+      (s.ext.has Gen.EXT_TIMER_REQUIRES_TIME = true →
+        Has (.error ⟨.error, .parse, "timer-missing-quantity", [body.close.getD (Span.pos name.span.stop)]⟩) s s') ∧
+      (s.ext.has Gen.EXT_TIMER_REQUIRES_TIME = false → name.isTextEmpty cs = true →
+        Has (.error ⟨.error, .parse, "timer-neither-name-nor-quantity", [timerNeitherSpan nameOffset body]⟩) s s')) := by
+  unfold timerFinish
+  dsimp only
+  refine Sat.bind (Sat.hasExt ?_)
+  cases he : s.ext.has Gen.EXT_TIMER_REQUIRES_TIME
+  · simp only [Option.isNone_none, Bool.and_false, Bool.false_eq_true, if_false]
+    cases hn : name.isTextEmpty cs
+    · simp only [Bool.false_eq_true, if_false, Option.isNone_some, Bool.false_and]
+      refine Sat.pure ⟨Grow.refl _, ?_, ?_⟩
+      · intro h; simp at h
+      · intro _ h; simp at h
+    · simp only [if_true, Option.isNone_none, Bool.and_self]
+      refine Sat.bind (Sat.perrE ?_)
+      refine Sat.pure ⟨Grow.push _ _, ?_, ?_⟩
+      · intro h; simp at h
+      · intro _ _; exact Has.push _ _
+  · simp only [Option.isNone_none, Bool.and_self, if_true]
+    refine Sat.bind (Sat.perrE ?_)
+    refine Sat.mono (FG.sat ?_ _) ?_
+    · fg_auto
+    · intro _ s' g
+      refine ⟨(Grow.push _ _).trans g, fun _ => (Has.push _ _).left g, ?_⟩
+      intro h; simp at h
+
+theorem timerFinish_FG (start stop nameOffset : Nat) (body : Body) (name : Text) (cs : CharSpec)
+    (q0 : Option (Loc (PQuantity α))) : FG (timerFinish (α := α) start stop nameOffset body name cs q0) := by
+  unfold timerFinish; fg_auto
+
+def timerMissingUnitEv (q : ParsedQuantity α) : Ev α :=
+  .error ⟨.error, .parse, "timer-missing-unit", [Span.pos q.quantity.val.value.value.span.stop]⟩
+
+theorem timerRest_spec (start stop nameOffset : Nat) (body : Body) (s : BP α) :
+    Sat (timerRest (α := α) start stop nameOffset body) s (fun _ s' => Grow s s' ∧ ∃ sq, Grow s sq ∧
+      (∀ qt, body.quantity = some qt → (parseQuantity (α := α) qt sq).1.quantity.val.unit = none →
+        Has (timerMissingUnitEv (parseQuantity (α := α) qt sq).1) s s') ∧
+      (body.quantity = none → s.ext.has Gen.EXT_TIMER_REQUIRES_TIME = true →
+        Has (.error ⟨.error, .parse, "timer-missing-quantity",
+          [body.close.getD (Span.pos (buildText nameOffset body.name).span.stop)]⟩) s s') ∧
+      (body.quantity = none → s.ext.has Gen.EXT_TIMER_REQUIRES_TIME = false →
+        (buildText nameOffset body.name).isTextEmpty s.cs = true →
+        Has (.error ⟨.error, .parse, "timer-neither-name-nor-quantity", [timerNeitherSpan nameOffset body]⟩) s s')) := by
+  unfold timerRest
+  refine Sat.bind (Sat.mono (FG.checkNoteTimer.sat s) ?_)
+  intro _ s1 g1
+  refine Sat.bind (Sat.mono (bpText_spec nameOffset body.name s1) ?_)
+  rintro name s2 ⟨rfl, q2⟩
+  refine Sat.bind (Sat.get ?_)
+  dsimp only
+  have g2 : Grow s s2 := g1.trans q2.grow
+  refine Sat.bind (Sat.mono (timerQty_spec body s2) ?_)
+  rintro r s3 ⟨g3, hnone, hunit⟩
+  cases hq : body.quantity with
+  | some qt =>
+    refine Sat.mono ((timerFinish_FG ..).sat s3) ?_
+    intro _ s' g
+    refine ⟨(g2.trans g3).trans g, s2, g2, ?_, ?_, ?_⟩
+    · intro qt' hqt' hu
+      cases hqt'
+      exact ((hunit qt hq hu).left g).right g2
+    · intro h; cases h
+    · intro h; cases h
+  | none =>
+    rw [hnone hq]
+    refine Sat.mono (timerFinish_spec start stop nameOffset body _ s2.cs s3) ?_
+    rintro _ s' ⟨g, h1, h2⟩
+    have he : s3.ext = s.ext := g3.2.1.trans g2.2.1
+    have hc : s2.cs = s.cs := g2.1
+    refine ⟨(g2.trans g3).trans g, s2, g2, ?_, ?_, ?_⟩
+    · intro qt h; cases h
+    · intro _ hx
+      exact (h1 (by rw [he]; exact hx)).right (g2.trans g3)
+    · intro _ hx hb
+      exact (h2 (by rw [he]; exact hx) (by rw [hc]; exact hb)).right (g2.trans g3)
+
+/-- **the diagnostics of a timer**, from the pieces it was cut into -/
+theorem timerTail_spec (start stop nameOffset : Nat) (mtoks : List Tok) (body : Body) (s : BP α) :
+    Sat (timerTail (α := α) start stop nameOffset mtoks body) s (fun _ s' =>
+      (mtoks.isEmpty = false →
+        Has (.error ⟨.error, .parse, "modifiers-not-allowed:timer", [tokensSpan mtoks]⟩) s s') ∧
+      (∀ i, s.ext.has Gen.EXT_COMPONENT_ALIAS = true →
+        body.name.findIdx? (fun t => t.kind == .or) = some i → Has (timerAliasEv body i) s s') ∧
+      (∃ sq, Grow s sq ∧ ∀ qt, body.quantity = some qt →
+        (parseQuantity (α := α) qt sq).1.quantity.val.unit = none →
+        Has (timerMissingUnitEv (parseQuantity (α := α) qt sq).1) s s') ∧
+      (body.quantity = none → s.ext.has Gen.EXT_TIMER_REQUIRES_TIME = true →
+        Has (.error ⟨.error, .parse, "timer-missing-quantity",
+          [body.close.getD (Span.pos (buildText nameOffset body.name).span.stop)]⟩) s s') ∧
+      (body.quantity = none → s.ext.has Gen.EXT_TIMER_REQUIRES_TIME = false →
+        (buildText nameOffset body.name).isTextEmpty s.cs = true →
+        Has (.error ⟨.error, .parse, "timer-neither-name-nor-quantity", [timerNeitherSpan nameOffset body]⟩) s s')) := by
+  have h0 := timerTail_head (α := α) start stop nameOffset mtoks body s
+  unfold Sat at h0 ⊢
+  obtain ⟨sB, gB, heq, hA, hB⟩ := h0
+  have h1 := timerRest_spec (α := α) start stop nameOffset body sB
+  unfold Sat at h1
+  rw [← heq] at h1
+  obtain ⟨g, sq, gq, h2, h3, h4⟩ := h1
+  refine ⟨fun h => (hA h).left g, fun i he hi => (hB i he hi).left g, ⟨sq, gB.trans gq, ?_⟩, ?_, ?_⟩
+  · intro qt hqt hu
+    exact (h2 qt hqt hu).right gB
+  · intro hq he
+    exact (h3 hq (by rw [gB.2.1]; exact he)).right gB
+  · intro hq he hb
+    exact (h4 hq (by rw [gB.2.1]; exact he) (by rw [gB.1]; exact hb)).right gB
 
 end Cook
